@@ -1,5 +1,5 @@
 (* Props_C09.v — property C09: theorem statements only. *)
-From Verif Require Import Base Sem Where_Model Where_Proofs C09_Proofs C09_Keys C09_KeysProofs.
+From Verif Require Import Base Sem Where_Model Where_Proofs C09_Proofs C09_Keys C09_KeysProofs C02_Args C02_ArgsProofs.
 
 (* For EVERY chain of Where/Not/Or calls (any length, any nesting of grouped sub-builders, any
    unit form), on plain and soft-delete models, with or without a primary key in the model
@@ -47,9 +47,23 @@ Print Assumptions c09_key_cond_iff.
 
 Theorem c09_has_key_spec : forall vals,
   has_key vals = true <->
-  exists v r, In v vals /\ (v = VStruct r \/ exists rs, v = VSlice rs /\ In r rs) /\ In false r.
+  exists v r, In v vals /\ (v = VStruct r \/ (exists rs, v = VSlice rs /\ In r rs)
+                            \/ (exists cols, v = VSelf cols /\ r = self_record cols)) /\ In false r.
 Proof. exact has_key_spec. Qed.
 Print Assumptions c09_has_key_spec.
+
+(* the update value is the model itself (db.Updates(&v) without Model): the loop over the schema's
+   columns sends a key column to the condition branch before Select / Omit are looked at - two
+   column lists that differ only in what Select / Omit say about each column add the same key
+   conditions, so naming the key in Select or Omit can neither drop nor add the condition *)
+Theorem c09_self_key_ignores_select : forall cols cols',
+  map (fun c => (col_pk c, col_zero c)) cols = map (fun c => (col_pk c, col_zero c)) cols' ->
+  key_cond false [VSelf cols] = key_cond false [VSelf cols'].
+Proof.
+  intros cols cols' H. unfold key_cond, update_key_conds. cbn [fold_left].
+  rewrite (self_key_ignores_select cols cols' H). reflexivity.
+Qed.
+Print Assumptions c09_self_key_ignores_select.
 
 (* the guard with the key conditions computed by gorm's own code *)
 Theorem c09_guard_iff_keys : forall tbl cs exprs eff (soft_on del : bool) vals live nlive pka npka,
@@ -68,5 +82,21 @@ Print Assumptions c09_guard_iff_keys.
 Example c09_keys_instance :
   key_cond true [VStruct [false; true]] = true /\ key_cond false [VStruct [false; true]] = true
   /\ key_cond true [VStruct [true; true]; VSlice [[true]; [true]]] = false
-  /\ key_cond false [VSlice [[true]; [false]]] = true.
+  /\ key_cond false [VSlice [[true]; [false]]] = true
+  /\ key_cond false [VSelf [mk_col true false (Some false); mk_col false true None]] = true
+  /\ key_cond false [VSelf [mk_col true true (Some true); mk_col false false (Some true)]] = false.
+Proof. repeat split. Qed.
+
+(* the condition-free forms on the level of Go values (C02_Args: Statement.BuildCondition's loop over
+   the values, evaluated by check_case on the Go values of every map / struct / key unit): one value
+   builds no condition exactly when it is nil, an empty map, an all-zero struct without selected
+   columns, a slice of such structs, or an empty slice of keys - a non-empty map is a condition
+   whatever its values (blank strings, zeros) *)
+Theorem c09_value_empty_iff : forall a, bc_args [a] = [] <-> arg_empty a = true.
+Proof. exact single_empty_iff. Qed.
+Print Assumptions c09_value_empty_iff.
+
+Example c09_value_instance :
+  bc_args [AMapSS [true]] = [1%nat] /\ arg_empty (AMapSS [true]) = false /\ arg_empty (AMapSS []) = true
+  /\ arg_empty (AStruct [mk_gf true false true]) = true /\ arg_empty (AStruct [mk_gf true true true]) = false.
 Proof. repeat split. Qed.
